@@ -11,6 +11,8 @@ import (
 	"testing"
 
 	"github.com/sdcio/data-server/pkg/config"
+	schemaClient "github.com/sdcio/data-server/pkg/datastore/clients/schema"
+	"github.com/sdcio/data-server/pkg/tree"
 	sdcpb "github.com/sdcio/sdc-protos/sdcpb"
 	"pgregory.net/rapid"
 	"verif/harness/vlib"
@@ -25,6 +27,10 @@ type Intent struct {
 }
 
 type Case struct {
+	// Mode: "datastore" = through TransactionSet (running is loaded into the tree up front);
+	// "tree" = the first step is inserted into a tree built the way the datastore builds it, but the running
+	// configuration stays in the cache only, so validators load running values and defaults on demand
+	Mode     string     `json:"mode,omitempty"`
 	Steps    [][]Intent `json:"steps"`
 	Procs    int        `json:"procs"`
 	Repeats  int        `json:"repeats"`
@@ -55,6 +61,14 @@ func genBulk(t *rapid.T, conf vlib.Conf, strict bool) {
 			conf["/cons/svc[name="+name+"]/kind"] = "gold"
 		}
 		all = append(all, name)
+		if rapid.Bool().Draw(t, "svc-dd") {
+			// must across branches onto a leaf that only exists through its default (loaded lazily by every entry)
+			conf["/cons/svc[name="+name+"]/dd"] = "x"
+			if strict {
+				// dd needs /cons/mode = on; in tree mode the generator moves it to the running configuration
+				conf["/cons/mode"] = "on"
+			}
+		}
 	}
 	for _, n := range all {
 		if conf["/cons/svc[name="+n+"]/kind"] == "gold" {
@@ -65,9 +79,11 @@ func genBulk(t *rapid.T, conf vlib.Conf, strict bool) {
 	for i := 0; i < nref; i++ {
 		name := fmt.Sprintf("r%d", rapid.IntRange(0, 19).Draw(t, "ref"))
 		tgt := fmt.Sprintf("s%d", rapid.IntRange(0, 24).Draw(t, "target")) // s20..s24 never exist
-		shape := rapid.IntRange(0, 2).Draw(t, "ref-shape")
+		shape := rapid.IntRange(0, 3).Draw(t, "ref-shape")
 		if strict {
 			switch {
+			case shape == 3 && len(all) > 0:
+				tgt = all[rapid.IntRange(0, len(all)-1).Draw(t, "w-target")]
 			case shape == 1 && len(gold) > 0:
 				tgt = gold[rapid.IntRange(0, len(gold)-1).Draw(t, "gold-target")]
 			case len(all) > 0 && conf["/cons/svc[name="+all[0]+"]/kind"] != "":
@@ -84,6 +100,9 @@ func genBulk(t *rapid.T, conf vlib.Conf, strict bool) {
 			conf["/cons/ref[name="+name+"]/target"] = tgt
 		case 1:
 			conf["/cons/ref[name="+name+"]/needkind"] = tgt
+		case 3:
+			// must onto the default weight of a svc entry: many refs load the same default concurrently
+			conf["/cons/ref[name="+name+"]/wref"] = tgt
 		default:
 			conf["/cons/ref[name="+name+"]/soft"] = tgt
 		}
@@ -126,15 +145,63 @@ func gen(t *rapid.T) *Case {
 		c.Running = vlib.Conf{}
 		genBulk(t, c.Running, true)
 	}
+	c.Mode = rapid.SampledFrom([]string{"datastore", "tree"}).Draw(t, "mode")
 	n := rapid.IntRange(1, 5).Draw(t, "nsteps")
+	if c.Mode == "tree" {
+		n = 1
+	}
 	for i := 0; i < n; i++ {
 		ni := rapid.SampledFrom([]int{1, 1, 2, 3}).Draw(t, "nintents")
 		owners := rapid.Permutation([]int{0, 1, 2, 3}).Draw(t, "owners")
 		var st []Intent
 		for j := 0; j < ni; j++ {
 			in := Intent{Owner: owners[j], Kind: rapid.SampledFrom([]string{"set", "set", "set", "set", "delete"}).Draw(t, "kind")}
+			if c.Mode == "tree" {
+				in.Kind = "set"
+			}
 			if in.Kind == "set" {
 				in.Conf = genConf(t)
+				if c.Mode == "tree" && in.Conf["/cons/mode"] == "on" && rapid.IntRange(0, 3).Draw(t, "mode-only-in-running") != 0 {
+					// the leaf all dd must statements look at exists in the running configuration only: every
+					// svc entry's validator loads it on demand
+					delete(in.Conf, "/cons/mode")
+					if c.Running == nil {
+						c.Running = vlib.Conf{}
+					}
+					c.Running["/cons/mode"] = "on"
+				}
+				if c.Mode == "tree" && rapid.Bool().Draw(t, "keyed-leafref") {
+					// ref entries whose leafref key (svcname) exists in the running configuration only: the leafref
+					// validator loads it on demand while the sibling chk validator reads the same leaf in its must
+					if c.Running == nil {
+						c.Running = vlib.Conf{}
+					}
+					for x, nk := 0, rapid.IntRange(1, 8).Draw(t, "nkeyed"); x < nk; x++ {
+						q := fmt.Sprintf("k%d", x)
+						svc := fmt.Sprintf("s%d", rapid.IntRange(0, 19).Draw(t, "keyed-svc"))
+						c.Running["/cons/ref[name="+q+"]/svcname"] = svc
+						if rapid.IntRange(0, 3).Draw(t, "keyed-svc-exists") != 0 {
+							c.Running["/cons/svc[name="+svc+"]/kind"] = "gold"
+						}
+						in.Conf["/cons/ref[name="+q+"]/viasvc"] = "gold"
+						in.Conf["/cons/ref[name="+q+"]/chk"] = "c"
+					}
+				}
+				if c.Mode == "tree" && len(c.Running) > 0 {
+					// references into content that only the running configuration holds
+					var rs []string
+					for k := range c.Running {
+						if strings.HasPrefix(k, "/cons/svc[name=") && strings.HasSuffix(k, "/kind") {
+							rs = append(rs, strings.TrimSuffix(strings.TrimPrefix(k, "/cons/svc[name="), "]/kind"))
+						}
+					}
+					sort.Strings(rs)
+					for x, nr := 0, rapid.IntRange(0, 10).Draw(t, "running-refs"); x < nr && len(rs) > 0; x++ {
+						tgt := rs[rapid.IntRange(0, len(rs)-1).Draw(t, "running-target")]
+						leaf := rapid.SampledFrom([]string{"target", "needkind", "wref", "soft"}).Draw(t, "running-ref-leaf")
+						in.Conf[fmt.Sprintf("/cons/ref[name=q%d]/%s", rapid.IntRange(0, 9).Draw(t, "q"), leaf)] = tgt
+					}
+				}
 			}
 			st = append(st, in)
 		}
@@ -224,10 +291,13 @@ func Exec(c *Case) (nontrivial bool, labels []string, fail *vlib.Failure) {
 		}
 		return h
 	}
+	if c.Mode == "tree" {
+		return execTree(ctx, c, mk)
+	}
 	a, b := mk(true), mk(false)
 	defer a.DS.Stop()
 	defer b.DS.Stop()
-	lab := map[string]bool{fmt.Sprintf("gomaxprocs-%d", c.Procs): true}
+	lab := map[string]bool{fmt.Sprintf("gomaxprocs-%d", c.Procs): true, "mode-datastore": true}
 	for i, st := range c.Steps {
 		entries := 0
 		for _, in := range st {
@@ -280,6 +350,74 @@ func Exec(c *Case) (nontrivial bool, labels []string, fail *vlib.Failure) {
 		}
 	}
 	return nontrivial, keys(lab), nil
+}
+
+// validateTree builds a tree as lowlevelTransactionSet does, except that the running configuration is not
+// loaded into it, and validates it.
+func validateTree(ctx context.Context, h *vlib.HistEnv, st []Intent, seq bool) (outcome, error) {
+	env := vlib.MustEnv()
+	scb := schemaClient.NewSchemaClientBound(vlib.SchemaRef(), env.SchemaClient)
+	tcc := tree.NewTreeCacheClient(h.DSName, env.Cache)
+	tc := tree.NewTreeContext(tcc, scb, h.DSName)
+	if err := tc.GetTreeSchemaCacheClient().RefreshCaches(ctx); err != nil {
+		return outcome{}, err
+	}
+	root, err := tree.NewTreeRoot(ctx, tc)
+	if err != nil {
+		return outcome{}, err
+	}
+	flags := tree.NewUpdateInsertFlags()
+	flags.SetNewFlag()
+	for _, q := range reqs(st) {
+		ti, err := h.DS.SdcpbTransactionIntentToInternalTI(ctx, q)
+		if err != nil {
+			return outcome{Err: "intent conversion: " + err.Error()}, nil
+		}
+		if err := root.AddCacheUpdatesRecursive(ctx, ti.GetUpdates(), flags); err != nil {
+			return outcome{Err: "insert: " + err.Error()}, nil
+		}
+	}
+	root.FinishInsertionPhase(ctx)
+	res := root.Validate(ctx, &config.Validation{DisableConcurrency: seq})
+	o := outcome{Errors: res.ErrorsStr(), Warn: res.WarningsStr()}
+	sort.Strings(o.Errors)
+	sort.Strings(o.Warn)
+	return o, nil
+}
+
+func execTree(ctx context.Context, c *Case, mk func(bool) *vlib.HistEnv) (bool, []string, *vlib.Failure) {
+	h := mk(true)
+	defer h.DS.Stop()
+	lab := map[string]bool{fmt.Sprintf("gomaxprocs-%d", c.Procs): true, "mode-tree": true}
+	st := c.Steps[0]
+	ref, err := validateTree(ctx, h, st, true)
+	if os.Getenv("VERIF_DEBUG") != "" {
+		fmt.Printf("DEBUG tree sequential outcome: %s\n", ref)
+	}
+	if err != nil {
+		fmt.Fprintf(os.Stderr, "HARNESS-ERROR %v\n", err)
+		os.Exit(2)
+	}
+	for r := 0; r < c.Repeats+1; r++ {
+		got, err := validateTree(ctx, h, st, false)
+		if err != nil {
+			fmt.Fprintf(os.Stderr, "HARNESS-ERROR %v\n", err)
+			os.Exit(2)
+		}
+		if !got.Equal(ref) {
+			return true, keys(lab), vlib.Failf("C17:concurrent-differs-from-sequential:tree", "tree with lazily loaded running values, concurrent run %d (GOMAXPROCS=%d): concurrent validation: %s\nsequential validation: %s", r+1, c.Procs, got, ref)
+		}
+	}
+	if len(ref.Errors) > 0 {
+		lab["step-rejected"] = true
+	} else {
+		lab["step-accepted"] = true
+	}
+	nt := len(c.Running) >= 8 && hasRef(st)
+	if nt {
+		lab["references-into-running-only-content"] = true
+	}
+	return nt, keys(lab), nil
 }
 
 func hasRef(st []Intent) bool {
